@@ -135,6 +135,6 @@ impl Area for LocalArea {
             }
         }
         stats.seen(lines, nflush >= 2);
-        ExecOut { outs, fails }
+        ExecOut { outs, fails, model_lines: None }
     }
 }
